@@ -72,7 +72,7 @@ func mapRanges(fn *ssa.Function) []mapRange {
 		}
 		mr.Head = mr.Next.Block()
 		for _, b := range fn.Blocks {
-			if b == mr.Head || (mr.Head.Dominates(b) && reaches(b, mr.Head)) {
+			if b == mr.Head || (blockDominates(mr.Head, b) && reaches(b, mr.Head)) {
 				mr.Body[b] = true
 			}
 		}
@@ -1535,7 +1535,7 @@ func ruleC14Queue(c *Checker) {
 		if !ok || !isNamedT(derefType(fa.X.Type()), "Dependencies") {
 			return
 		}
-		if _, isMC := st.Val.(*ssa.MakeClosure); isMC && st.Block() != fd.Block() && !st.Block().Dominates(fd.Block()) {
+		if _, isMC := st.Val.(*ssa.MakeClosure); isMC && st.Block() != fd.Block() && !blockDominates(st.Block(), fd.Block()) {
 			okc = false
 		}
 	})
@@ -1581,7 +1581,7 @@ func allUsesInside(al *ssa.Alloc, body map[*ssa.BasicBlock]bool) bool {
 // dominatedByBody: the block is an exit arm hanging off a (non-header) body
 // block — e.g. the error return inside the loop.
 func dominatedByBody(b *ssa.BasicBlock, body map[*ssa.BasicBlock]bool) bool {
-	for d := b.Idom(); d != nil; d = d.Idom() {
+	for d := idomOf(b); d != nil; d = idomOf(d) {
 		if body[d] {
 			// the header dominates everything after the loop too; require a proper body block
 			for _, s := range d.Succs {
@@ -1595,7 +1595,7 @@ func dominatedByBody(b *ssa.BasicBlock, body map[*ssa.BasicBlock]bool) bool {
 
 func isLoopHeaderOf(h *ssa.BasicBlock, body map[*ssa.BasicBlock]bool) bool {
 	for b := range body {
-		if b != h && !h.Dominates(b) {
+		if b != h && !blockDominates(h, b) {
 			return false
 		}
 	}
@@ -1857,7 +1857,7 @@ func ruleCtxNonNil(id string) func(*Checker) {
 							}
 						}
 					}
-					if join == nil || !(join == use || join.Dominates(use)) {
+					if join == nil || !(join == use || blockDominates(join, use)) {
 						return false, "a variable that keeps its zero value when no Start callback is installed: no `if v == nil { v = ctx }` fall-back dominates the use"
 					}
 					after := reachFromBlock(join)
